@@ -53,13 +53,19 @@ func Worker17(cfg Config) *evid.Stats {
 		st.Trouble = append(st.Trouble, "C17 needs the instrumented scratch copy (verifsim.NSites == 0)")
 		return st
 	}
-	rn := &runner{cfg: cfg, st: st, rc: &refCache{m: map[uint64]*refResult{}}, vcap: 4}
+	rn := &runner{cfg: cfg, st: st, rc: &refCache{m: map[uint64]*refResult{}}, vcap: 4, pristineEvery: 200}
 	lib := newLibrary(cfg.RepoDir)
 	st.Probes["yield_sites_in_build"] = int64(verifsim.NSites)
 	sitesSeen := map[int]struct{}{}
 	one := func(c *Case, pol policy, polName string) *worldRun {
 		c.Policy = polName
-		wr, vs := simulate(c, pol, rn.rc, false)
+		rc := rn.rc
+		if rn.pristineDue(c) {
+			c.PristineRef = true
+			rc = &refCache{m: map[uint64]*refResult{}, pristine: true}
+			st.Probe("worlds_judged_against_pristine_process_references")
+		}
+		wr, vs := simulate(c, pol, rc, false)
 		st.Evals++
 		st.Steps += wr.steps
 		rn.note(c, wr)
@@ -92,7 +98,7 @@ func Worker17(cfg Config) *evid.Stats {
 			// attribute under the recorded schedule
 			c2 := cloneCase(c)
 			wr2 := execute(c2, newReplay(c.Sched), true, false)
-			vs2 := judge(c2, wr2, rn.rc, false, true)
+			vs2 := judge(c2, wr2, rc, false, !c.PristineRef)
 			if len(vs2) > 0 {
 				vs = vs2
 			} else {
@@ -103,6 +109,7 @@ func Worker17(cfg Config) *evid.Stats {
 		if len(rn.rc.m) > 20000 {
 			rn.rc.m = map[uint64]*refResult{}
 		}
+		rn.remember(c)
 		return wr
 	}
 	// dry run: serial, counts each task's yields
